@@ -68,7 +68,7 @@ CHECKS = {
    technique="TLA+ spec: exhaustive KV tour replay + corruption-class enumeration + TLC trace validation of recorded concurrent histories", design="DESIGN.md section 5 C09"),
 
  "C01": dict(level="model_checking",
-   text="GluonCore.tla models snapshots, responder queues, update queues and the client-side mirror; TLC checks MirrorAgrees / SnapAscending / CountShrinksOnlyByExpunge on the model and generates behaviours; each is replayed on a real server over the wire with gated update delivery and the property's own predicate (client mirror built from the real untagged responses vs the real FETCH 1:* (UID FLAGS)) is evaluated at every probe and at quiescence; GluonMerge.tla: every well-formed stream of up to 3 (thorough 4) untagged responses is passed through the real response.Merge and must leave a client with the same knowledge; GluonIdle.tla: the completion of IDLE against the sender goroutine that still buffers pushed responses (ViewAgrees holds for the design, fails for the completion-first order); every complete behaviour (pushes, ticker flushes, DONE, final flush, probe, a change after IDLE) is forced on the real server with the sender parked at the idle.flush hook and the client's mirror compared with what the server sends and reports",
+   text="GluonCore.tla models snapshots, responder queues, update queues and the client-side mirror; TLC checks MirrorAgrees / SnapAscending / CountShrinksOnlyByExpunge on the model and generates behaviours; each is replayed on a real server over the wire with gated update delivery and the property's own predicate (client mirror built from the real untagged responses vs the real FETCH 1:* (UID FLAGS)) is evaluated at every probe and at quiescence; GluonMerge.tla: every well-formed stream of up to 3 (thorough 4) untagged responses is passed through the real response.Merge and must leave a client with the same knowledge; GluonIdle.tla: the completion of IDLE against the sender goroutine that still buffers pushed responses (ViewAgrees holds for the design, fails for the completion-first order); every complete behaviour (pushes, ticker flushes, DONE, final flush, probe, a change after IDLE) is forced on the real server with the sender parked at the idle.flush hook and the client's mirror compared with what the server sends and reports; GluonRecent.tla: the \\Recent flag (recent bit, target of the shared ExistsStateUpdate, SELECT / EXAMINE, arrivals of every kind) - Sticky model-checked, every 4-step behaviour and simulated 10-step behaviours replayed with gated deliveries, announcements and FETCH flags compared with the model and the no-unannounced-change predicate judged on real data",
    note=CORE_NOTE, technique="TLA+ spec + TLC simulation/model checking; gated replay on the real server; predicate on real wire data", design="DESIGN.md section 5 C01"),
  "C02": dict(level="model_checking",
    text="GluonCore.tla: invariant Converges (quiescent => snapshot = authoritative view); TLC-generated behaviours are replayed with the update gate, driven to exact quiescence, and the long-lived session's FETCH is compared with a brand-new EXAMINE session; GluonPublish.tla: the commit and publish halves of two concurrent parties (two sessions, or a session and the connector) - every interleaving is forced on the real server with parking hooks between the two transactions and the observer is compared with a brand-new session; GluonQueue.tla: the QueuedChannel between writers and a session (Fifo, Conserved, NoLoss, PumpEnds model-checked; every behaviour of 4-5 external calls with batch sizes around the channel buffer and the slice capacity executed on the real queue)",
